@@ -48,6 +48,9 @@ func batchWorld(r *R) {
 	case 15:
 		maxWait = -unit
 		r.Probe("maxwait-negative")
+		if r.Choose(3, "maxwait-most-negative") == 2 {
+			maxWait = math.MinInt64 // the other end of "no waiting at all"
+		}
 	}
 	useFunc := r.Choose(3, "batchfunc") == 2
 	slowFull := useFunc && r.Choose(2, "slowfull") == 1
@@ -125,7 +128,14 @@ func batchWorld(r *R) {
 	if r.Choose(2, "close-pause") == 1 {
 		closePause = time.Duration(1+r.Choose(15, "pause-d")) * 13 * time.Millisecond
 	}
-	strictTiming := r.Cfg.StallPer1k == 0 && r.Cfg.LatePer1k == 0
+	strictTiming := r.Cfg.StallPer1k == 0 && r.Cfg.LatePer1k == 0 && r.Cfg.ClockTickPer1k == 0
+	// a run whose only disturbance is a clock that moves a few nanoseconds per reading is judged
+	// like a strict one, a microsecond more generously
+	tickOnly := r.Cfg.StallPer1k == 0 && r.Cfg.LatePer1k == 0 && r.Cfg.ClockTickPer1k > 0
+	tickSlack := int64(0)
+	if tickOnly {
+		tickSlack = int64(time.Microsecond)
+	}
 	effWait := maxWait // what the timing oracles use: a negative wait is no wait
 	if effWait < 0 {
 		effWait = 0
@@ -263,7 +273,7 @@ func batchWorld(r *R) {
 				} else {
 					r.Probe("final-partial-batch")
 				}
-				if strictTiming {
+				if strictTiming || tickOnly {
 					// Handed to a waiting consumer rather than held back. The batch's clock starts when
 					// the batcher takes its oldest item, which is the source's hand-over or, if the
 					// batcher was still holding the previous batch, the moment that batch was taken;
@@ -272,7 +282,7 @@ func batchWorld(r *R) {
 					if prevDeliveredAt > started {
 						started = prevDeliveredAt
 					}
-					if due := started + int64(effWait); c.RetAt > c.InvAt && c.RetAt > due {
+					if due := started + int64(effWait) + tickSlack; c.RetAt > c.InvAt+tickSlack && c.RetAt > due {
 						r.Violate("C11", "held-back", "Next was invoked at t=%v; the oldest item of its batch %v was handed over at t=%v (previous batch taken at t=%v), so with maxWait=%v the batch was due at t=%v, but it was only delivered at t=%v", time.Duration(c.InvAt), b, time.Duration(src.HandOver[first]), time.Duration(prevDeliveredAt), maxWait, time.Duration(due), time.Duration(c.RetAt))
 						return
 					}
@@ -280,7 +290,7 @@ func batchWorld(r *R) {
 					if src.HandOver[first] > from {
 						from = src.HandOver[first]
 					}
-					if c.RetAt > from+int64(effWait) {
+					if c.RetAt > from+int64(effWait)+tickSlack {
 						r.Violate("C11", "held-back", "Next was invoked at t=%v, the first item of its batch %v was handed over at t=%v, maxWait=%v, but the batch was only delivered at t=%v", time.Duration(c.InvAt), b, time.Duration(src.HandOver[first]), maxWait, time.Duration(c.RetAt))
 						return
 					}
